@@ -7,6 +7,9 @@ Import ListNotations.
 Local Open Scope N_scope.
 Ltac Zify.zify_post_hook ::= Z.div_mod_to_equations.
 
+Definition item_ok {A} (P : A -> Prop) (it : item A) : Prop :=
+  match it with IOk a => P a | IErr _ => True end.
+
 (* sat x P: x is neither a panic nor a fuel exhaustion, and if it is a value
    the value satisfies P *)
 Definition sat {A} (x : outcome A) (P : A -> Prop) : Prop :=
@@ -14,23 +17,23 @@ Definition sat {A} (x : outcome A) (P : A -> Prop) : Prop :=
 
 Lemma sat_bind {A B} (x : outcome A) (f : A -> outcome B) (P : A -> Prop) (Q : B -> Prop) :
   sat x P -> (forall a, P a -> sat (f a) Q) -> sat (bind x f) Q.
-Proof. destruct x; cbn; auto; contradiction. Qed.
+Proof. destruct x; cbn [sat bind fst snd no_panic item_ok unwrap_opt s_err s_cnt s_pos s_kind q_name rr_owner rr_data rr_rdlen rr_end]; auto; contradiction. Qed.
 
 Lemma sat_weaken {A} (x : outcome A) (P Q : A -> Prop) :
   sat x P -> (forall a, P a -> Q a) -> sat x Q.
-Proof. destruct x; cbn; auto. Qed.
+Proof. destruct x; cbn [sat bind fst snd no_panic item_ok unwrap_opt s_err s_cnt s_pos s_kind q_name rr_owner rr_data rr_rdlen rr_end]; auto. Qed.
 
 Lemma sat_no_panic {A} (x : outcome A) P : sat x P -> no_panic x.
-Proof. destruct x; cbn; auto. Qed.
+Proof. destruct x; cbn [sat bind fst snd no_panic item_ok unwrap_opt s_err s_cnt s_pos s_kind q_name rr_owner rr_data rr_rdlen rr_end]; auto. Qed.
 
 Lemma no_panic_sat {A} (x : outcome A) : no_panic x -> sat x (fun _ => True).
-Proof. destruct x; cbn; auto. Qed.
+Proof. destruct x; cbn [sat bind fst snd no_panic item_ok unwrap_opt s_err s_cnt s_pos s_kind q_name rr_owner rr_data rr_rdlen rr_end]; auto. Qed.
 
 Lemma sat_ok {A} (x : outcome A) P a : sat x P -> x = Ok a -> P a.
 Proof. intros H E. rewrite E in H. exact H. Qed.
 
 Lemma sat_and {A} (x : outcome A) P Q : sat x P -> sat x Q -> sat x (fun a => P a /\ Q a).
-Proof. destruct x; cbn; auto. Qed.
+Proof. destruct x; cbn [sat bind fst snd no_panic item_ok unwrap_opt s_err s_cnt s_pos s_kind q_name rr_owner rr_data rr_rdlen rr_end]; auto. Qed.
 
 (* a parsed name that the unchecked iterator can walk *)
 Definition good_name (m : bytes) (p : pname) : Prop :=
@@ -40,7 +43,7 @@ Lemma parse_ref_sat m pos lim : lim <= mlen m ->
   sat (parse_ref m pos lim) (good_name m).
 Proof.
   intros Hl. pose proof (parse_ref_total m pos lim Hl) as Ht.
-  destruct (parse_ref m pos lim) as [p| | |] eqn:E; cbn in *; auto.
+  destruct (parse_ref m pos lim) as [p| | |] eqn:E; cbn [sat bind fst snd no_panic item_ok unwrap_opt s_err s_cnt s_pos s_kind q_name rr_owner rr_data rr_rdlen rr_end] in *; auto.
   destruct (parse_ref_iter_total m pos lim p E Hl) as [ls [H _]]. exists ls. exact H.
 Qed.
 
@@ -49,22 +52,22 @@ Lemma u16_at_sat m pos lim : lim <= mlen m ->
   sat (u16_at m pos lim) (fun _ => pos + 2 <= lim).
 Proof.
   intros Hl. unfold u16_at.
-  destruct (N.ltb_spec (lim - pos) 2) as [H|H]; cbn; [exact I|].
+  destruct (N.ltb_spec (lim - pos) 2) as [H|H]; cbn [sat bind fst snd no_panic item_ok unwrap_opt s_err s_cnt s_pos s_kind q_name rr_owner rr_data rr_rdlen rr_end]; [exact I|].
   destruct (get_some m pos) as [a Ha]; [lia|].
   destruct (get_some m (pos + 1)) as [b Hb]; [lia|].
-  rewrite Ha, Hb. cbn. lia.
+  rewrite Ha, Hb. cbn [sat bind fst snd no_panic item_ok unwrap_opt s_err s_cnt s_pos s_kind q_name rr_owner rr_data rr_rdlen rr_end]. lia.
 Qed.
 
 Lemma u32_at_sat m pos lim : lim <= mlen m ->
   sat (u32_at m pos lim) (fun _ => pos + 4 <= lim).
 Proof.
   intros Hl. unfold u32_at.
-  destruct (N.ltb_spec (lim - pos) 4) as [H|H]; cbn; [exact I|].
+  destruct (N.ltb_spec (lim - pos) 4) as [H|H]; cbn [sat bind fst snd no_panic item_ok unwrap_opt s_err s_cnt s_pos s_kind q_name rr_owner rr_data rr_rdlen rr_end]; [exact I|].
   destruct (get_some m pos) as [a Ha]; [lia|].
   destruct (get_some m (pos + 1)) as [b Hb]; [lia|].
   destruct (get_some m (pos + 2)) as [c Hc]; [lia|].
   destruct (get_some m (pos + 3)) as [d Hd]; [lia|].
-  rewrite Ha, Hb, Hc, Hd. cbn. lia.
+  rewrite Ha, Hb, Hc, Hd. cbn [sat bind fst snd no_panic item_ok unwrap_opt s_err s_cnt s_pos s_kind q_name rr_owner rr_data rr_rdlen rr_end]. lia.
 Qed.
 
 Lemma count_at_sat m off : off + 2 <= mlen m -> sat (count_at m off) (fun _ => True).
@@ -86,10 +89,10 @@ Lemma question_parse_sat m pos lim : lim <= mlen m ->
   sat (question_parse m pos lim) (fun q => good_name m (q_name q)).
 Proof.
   intros Hl. unfold question_parse.
-  eapply sat_bind; [apply parse_ref_sat; assumption|]. intros p Hp.
-  eapply sat_bind; [apply u16_at_sat; assumption|]. intros ty _.
-  eapply sat_bind; [apply u16_at_sat; assumption|]. intros cl _.
-  cbn. exact Hp.
+  eapply sat_bind; [apply parse_ref_sat; assumption|]. intros p Hp. cbv beta in *.
+  eapply sat_bind; [apply u16_at_sat; assumption|]. intros ty _. cbv beta in *.
+  eapply sat_bind; [apply u16_at_sat; assumption|]. intros cl _. cbv beta in *.
+  cbn [sat bind fst snd no_panic item_ok unwrap_opt s_err s_cnt s_pos s_kind q_name rr_owner rr_data rr_rdlen rr_end]. exact Hp.
 Qed.
 
 Definition good_rr (m : bytes) (lim : N) (r : rr) : Prop :=
@@ -99,29 +102,26 @@ Lemma record_parse_sat m pos lim : lim <= mlen m ->
   sat (record_parse m pos lim) (good_rr m lim).
 Proof.
   intros Hl. unfold record_parse.
-  eapply sat_bind; [apply parse_ref_sat; assumption|]. intros p Hp. cbv zeta.
-  eapply sat_bind; [apply u16_at_sat; assumption|]. intros ty _.
-  eapply sat_bind; [apply u16_at_sat; assumption|]. intros cl _.
-  eapply sat_bind; [apply u32_at_sat; assumption|]. intros ttl _.
-  eapply sat_bind; [apply u16_at_sat; assumption|]. intros rdlen H8.
-  destruct (N.ltb_spec (lim - (pn_end p + 10)) rdlen) as [H|H]; cbn; [exact I|].
-  unfold good_rr. cbn. split; [exact Hp|]. split; [lia|reflexivity].
+  eapply sat_bind; [apply parse_ref_sat; assumption|]. intros p Hp. cbv beta in *. cbv zeta.
+  eapply sat_bind; [apply u16_at_sat; assumption|]. intros ty _. cbv beta in *.
+  eapply sat_bind; [apply u16_at_sat; assumption|]. intros cl _. cbv beta in *.
+  eapply sat_bind; [apply u32_at_sat; assumption|]. intros ttl _. cbv beta in *.
+  eapply sat_bind; [apply u16_at_sat; assumption|]. intros rdlen H8. cbv beta in *.
+  destruct (N.ltb_spec (lim - (pn_end p + 10)) rdlen) as [H|H]; cbn [sat bind fst snd no_panic item_ok unwrap_opt s_err s_cnt s_pos s_kind q_name rr_owner rr_data rr_rdlen rr_end]; [exact I|].
+  unfold good_rr. cbn [sat bind fst snd no_panic item_ok unwrap_opt s_err s_cnt s_pos s_kind q_name rr_owner rr_data rr_rdlen rr_end]. split; [exact Hp|]. cbv beta in H8. split; [lia|reflexivity].
 Qed.
 
 Lemma record_skip_sat m pos lim : lim <= mlen m ->
   sat (record_skip m pos lim) (fun _ => True).
 Proof.
   intros Hl. unfold record_skip.
-  eapply sat_bind; [apply no_panic_sat; apply skip_name_total; assumption|]. intros e _.
-  destruct (lim - e <? rr_fixed_skip); cbn; [exact I|].
-  eapply sat_bind; [apply u16_at_sat; assumption|]. intros rdlen _.
-  cbv zeta. destruct (lim - (e + rr_fixed_skip + 2) <? rdlen); cbn; exact I.
+  eapply sat_bind; [apply no_panic_sat; apply skip_name_total; assumption|]. intros e _. cbv beta in *.
+  destruct (lim - e <? rr_fixed_skip); cbn [sat bind fst snd no_panic item_ok unwrap_opt s_err s_cnt s_pos s_kind q_name rr_owner rr_data rr_rdlen rr_end]; [exact I|].
+  eapply sat_bind; [apply u16_at_sat; assumption|]. intros rdlen _. cbv beta in *.
+  cbv zeta. destruct (lim - (e + rr_fixed_skip + 2) <? rdlen); cbn [sat bind fst snd no_panic item_ok unwrap_opt s_err s_cnt s_pos s_kind q_name rr_owner rr_data rr_rdlen rr_end]; exact I.
 Qed.
 
 (* ------------------------------------------------------------- iterators *)
-Definition item_ok {A} (P : A -> Prop) (it : item A) : Prop :=
-  match it with IOk a => P a | IErr _ => True end.
-
 Definition fuel_ok (fuel : nat) (s : sect) : Prop :=
   match s_err s with
   | None => (N.to_nat (s_cnt s) + 2 <= fuel)%nat
@@ -145,10 +145,10 @@ Section Iter.
                   | None => snd r = s
                   end).
   Proof.
-    unfold sec_next. destruct (s_err s) as [e|] eqn:Ee; cbn; [auto|].
-    destruct (N.ltb_spec 0 (s_cnt s)) as [Hc|Hc]; cbn; [|auto].
+    unfold sec_next. destruct (s_err s) as [e|] eqn:Ee; cbn [sat bind fst snd no_panic item_ok unwrap_opt s_err s_cnt s_pos s_kind q_name rr_owner rr_data rr_rdlen rr_end]; [auto|].
+    destruct (N.ltb_spec 0 (s_cnt s)) as [Hc|Hc]; cbn [sat bind fst snd no_panic item_ok unwrap_opt s_err s_cnt s_pos s_kind q_name rr_owner rr_data rr_rdlen rr_end]; [|auto].
     pose proof (parse_sat (s_pos s)) as Hp.
-    destruct (parse (s_pos s)) as [a|e| |]; cbn in *; try contradiction; repeat split; auto.
+    destruct (parse (s_pos s)) as [a|e| |]; cbn [sat bind fst snd no_panic item_ok unwrap_opt s_err s_cnt s_pos s_kind q_name rr_owner rr_data rr_rdlen rr_end] in *; try contradiction; repeat split; auto.
   Qed.
 
   Lemma drain_sat : forall fuel s acc,
@@ -166,19 +166,19 @@ Section Iter.
         eapply sat_weaken.
         * apply IH; [|constructor; [exact Pa|exact Hacc]].
           unfold fuel_ok in *. rewrite He in Hf. rewrite He'. lia.
-        * cbn. intros r [H1 [H2 H3]]. split; [exact H1|]. split; [congruence|exact H3].
+        * cbn [sat bind fst snd no_panic item_ok unwrap_opt s_err s_cnt s_pos s_kind q_name rr_owner rr_data rr_rdlen rr_end]. intros r [H1 [H2 H3]]. split; [exact H1|]. split; [congruence|exact H3].
       + destruct Ho as [He [He' Hc]].
         eapply sat_weaken.
         * apply IH; [|constructor; [exact I|exact Hacc]].
           unfold fuel_ok in *. rewrite He in Hf. rewrite He'. lia.
-        * cbn. intros r [H1 [H2 H3]]. split; [exact H1|]. split; [congruence|exact H3].
-      + subst s'. cbn. split; [apply Forall_rev; exact Hacc|]. split; [reflexivity|auto].
+        * cbn [sat bind fst snd no_panic item_ok unwrap_opt s_err s_cnt s_pos s_kind q_name rr_owner rr_data rr_rdlen rr_end]. intros r [H1 [H2 H3]]. split; [exact H1|]. split; [congruence|exact H3].
+      + subst s'. cbn [sat bind fst snd no_panic item_ok unwrap_opt s_err s_cnt s_pos s_kind q_name rr_owner rr_data rr_rdlen rr_end]. split; [apply Forall_rev; exact Hacc|]. split; [reflexivity|auto].
   Qed.
 
   Lemma fused_sat s : sat (fused (sec_next parse endof) s) (fun _ => True).
   Proof.
-    unfold fused. eapply sat_bind; [apply sec_next_sat|]. intros r1 _.
-    eapply sat_bind; [apply sec_next_sat|]. intros r2 _. cbn. exact I.
+    unfold fused. eapply sat_bind; [apply sec_next_sat|]. intros r1 _. cbv beta in *.
+    eapply sat_bind; [apply sec_next_sat|]. intros r2 _. cbv beta in *. cbn [sat bind fst snd no_panic item_ok unwrap_opt s_err s_cnt s_pos s_kind q_name rr_owner rr_data rr_rdlen rr_end]. exact I.
   Qed.
 End Iter.
 
@@ -188,7 +188,7 @@ Proof.
   unfold q_next. eapply sat_weaken.
   - apply (sec_next_sat _ q_end (fun q => good_name m (q_name q))).
     intros pos. apply question_parse_sat. lia.
-  - intros [o s'] [Hk Ho]. cbn in *. split; [exact Hk|]. destruct o as [[q|e]|]; auto. tauto.
+  - intros [o s'] [Hk Ho]. cbn [sat bind fst snd no_panic item_ok unwrap_opt s_err s_cnt s_pos s_kind q_name rr_owner rr_data rr_rdlen rr_end] in *. split; [exact Hk|]. destruct o as [[q|e]|]; auto. tauto.
 Qed.
 
 Lemma r_next_sat m s : sat (r_next m s) (fun r => s_kind (snd r) = s_kind s /\
@@ -197,7 +197,7 @@ Proof.
   unfold r_next. eapply sat_weaken.
   - apply (sec_next_sat _ rr_end (good_rr m (mlen m))).
     intros pos. apply record_parse_sat. lia.
-  - intros [o s'] [Hk Ho]. cbn in *. split; [exact Hk|]. destruct o as [[q|e]|]; auto. tauto.
+  - intros [o s'] [Hk Ho]. cbn [sat bind fst snd no_panic item_ok unwrap_opt s_err s_cnt s_pos s_kind q_name rr_owner rr_data rr_rdlen rr_end] in *. split; [exact Hk|]. destruct o as [[q|e]|]; auto. tauto.
 Qed.
 
 (* ----------------------------------------------------- section transitions *)
@@ -205,7 +205,7 @@ Lemma question_section_sat m : has_header m ->
   sat (question_section m) (fun s => s_kind s = 0 /\ s_err s = None).
 Proof.
   intros Hh. unfold question_section. destruct (count_offsets m Hh) as [H _].
-  eapply sat_bind; [apply count_at_sat; exact H|]. intros c _. cbn. auto.
+  eapply sat_bind; [apply count_at_sat; exact H|]. intros c _. cbv beta in *. cbn [sat bind fst snd no_panic item_ok unwrap_opt s_err s_cnt s_pos s_kind q_name rr_owner rr_data rr_rdlen rr_end]. auto.
 Qed.
 
 Lemma kind_off_ok m k : has_header m -> kind_off k + 2 <= mlen m.
@@ -218,7 +218,7 @@ Lemma record_section_sat m pos k : has_header m ->
   sat (record_section m pos k) (fun s => s_kind s = k /\ s_err s = None).
 Proof.
   intros Hh. unfold record_section.
-  eapply sat_bind; [apply count_at_sat; apply kind_off_ok; exact Hh|]. intros c _. cbn. auto.
+  eapply sat_bind; [apply count_at_sat; apply kind_off_ok; exact Hh|]. intros c _. cbv beta in *. cbn [sat bind fst snd no_panic item_ok unwrap_opt s_err s_cnt s_pos s_kind q_name rr_owner rr_data rr_rdlen rr_end]. auto.
 Qed.
 
 Lemma q_to_answer_sat m s : has_header m -> sat (q_to_answer m s) (fun a => s_kind a = 1).
@@ -229,8 +229,8 @@ Proof.
     + intros pos. apply question_parse_sat. lia.
     + apply sec_fuel_ok.
     + constructor.
-  - intros r _. cbv zeta. destruct (s_err (snd r)); cbn; [exact I|].
-    eapply sat_weaken; [apply record_section_sat; exact Hh|]. intros a [H _]. exact H.
+  - intros r _. cbv beta in *. cbv zeta. destruct (s_err (snd r)); cbn [sat bind fst snd no_panic item_ok unwrap_opt s_err s_cnt s_pos s_kind q_name rr_owner rr_data rr_rdlen rr_end]; [exact I|].
+    eapply sat_weaken; [apply record_section_sat; exact Hh|]. intros a [H _]. cbv beta in *. exact H.
 Qed.
 
 Lemma r_next_section_sat m s : has_header m ->
@@ -238,25 +238,25 @@ Lemma r_next_section_sat m s : has_header m ->
       (fun o => s_kind s < 3 -> exists n, o = Some n /\ s_kind n = s_kind s + 1).
 Proof.
   intros Hh. unfold r_next_section.
-  destruct (N.leb_spec 3 (s_kind s)) as [Hk|Hk]; cbn; [intros; lia|].
+  destruct (N.leb_spec 3 (s_kind s)) as [Hk|Hk]; cbn [sat bind fst snd no_panic item_ok unwrap_opt s_err s_cnt s_pos s_kind q_name rr_owner rr_data rr_rdlen rr_end]; [intros; lia|].
   eapply sat_bind.
   - unfold r_skip_next. apply (drain_sat _ (fun e : N => e) (fun _ => True)).
     + intros pos. apply record_skip_sat. lia.
     + apply sec_fuel_ok.
     + constructor.
-  - intros r _. cbv zeta. destruct (s_err (snd r)); cbn; [exact I|].
-    eapply sat_bind; [apply record_section_sat; exact Hh|]. intros n [Hn _]. cbn.
+  - intros r _. cbv beta in *. cbv zeta. destruct (s_err (snd r)); cbn [sat bind fst snd no_panic item_ok unwrap_opt s_err s_cnt s_pos s_kind q_name rr_owner rr_data rr_rdlen rr_end]; [exact I|].
+    eapply sat_bind; [apply record_section_sat; exact Hh|]. intros n [Hn _]. cbv beta in *. cbn [sat bind fst snd no_panic item_ok unwrap_opt s_err s_cnt s_pos s_kind q_name rr_owner rr_data rr_rdlen rr_end].
     intros _. exists n. auto.
 Qed.
 
 Lemma unwrap_opt_sat {A} (o : option A) (P : A -> Prop) :
   (exists n, o = Some n /\ P n) -> sat (unwrap_opt o) P.
-Proof. intros [n [E H]]. subst o. cbn. exact H. Qed.
+Proof. intros [n [E H]]. subst o. cbn [sat bind fst snd no_panic item_ok unwrap_opt s_err s_cnt s_pos s_kind q_name rr_owner rr_data rr_rdlen rr_end]. exact H. Qed.
 
 Lemma msg_answer_sat m : has_header m -> sat (msg_answer m) (fun a => s_kind a = 1).
 Proof.
   intros Hh. unfold msg_answer.
-  eapply sat_bind; [apply question_section_sat; exact Hh|]. intros q _.
+  eapply sat_bind; [apply question_section_sat; exact Hh|]. intros q _. cbv beta in *.
   apply q_to_answer_sat. exact Hh.
 Qed.
 
@@ -271,32 +271,32 @@ Qed.
 Lemma msg_authority_sat m : has_header m -> sat (msg_authority m) (fun a => s_kind a = 2).
 Proof.
   intros Hh. unfold msg_authority.
-  eapply sat_bind; [apply msg_answer_sat; exact Hh|]. intros a Ha.
+  eapply sat_bind; [apply msg_answer_sat; exact Hh|]. intros a Ha. cbv beta in *.
   apply (next_unwrap_sat m a 1 Hh Ha). lia.
 Qed.
 
 Lemma msg_additional_sat m : has_header m -> sat (msg_additional m) (fun a => s_kind a = 3).
 Proof.
   intros Hh. unfold msg_additional.
-  eapply sat_bind; [apply msg_authority_sat; exact Hh|]. intros a Ha.
+  eapply sat_bind; [apply msg_authority_sat; exact Hh|]. intros a Ha. cbv beta in *.
   apply (next_unwrap_sat m a 2 Hh Ha). lia.
 Qed.
 
 Lemma msg_sections_sat m : has_header m -> sat (msg_sections m) (fun _ => True).
 Proof.
   intros Hh. unfold msg_sections.
-  eapply sat_bind; [apply question_section_sat; exact Hh|]. intros q _.
-  eapply sat_bind; [apply q_to_answer_sat; exact Hh|]. intros a Ha.
-  eapply sat_bind; [apply r_next_section_sat; exact Hh|]. intros o1 Ho1.
+  eapply sat_bind; [apply question_section_sat; exact Hh|]. intros q _. cbv beta in *.
+  eapply sat_bind; [apply q_to_answer_sat; exact Hh|]. intros a Ha. cbv beta in *.
+  eapply sat_bind; [apply r_next_section_sat; exact Hh|]. intros o1 Ho1. cbv beta in *.
   eapply sat_bind.
   { apply (unwrap_opt_sat o1 (fun n => s_kind n = 2)). destruct Ho1 as [n [E Hn]]; [lia|].
     exists n. split; [exact E|lia]. }
-  intros ns Hns.
-  eapply sat_bind; [apply r_next_section_sat; exact Hh|]. intros o2 Ho2.
+  intros ns Hns. cbv beta in *.
+  eapply sat_bind; [apply r_next_section_sat; exact Hh|]. intros o2 Ho2. cbv beta in *.
   eapply sat_bind.
   { apply (unwrap_opt_sat o2 (fun n => s_kind n = 3)). destruct Ho2 as [n [E Hn]]; [lia|].
     exists n. split; [exact E|lia]. }
-  intros ar _. cbn. exact I.
+  intros ar _. cbn [sat bind fst snd no_panic item_ok unwrap_opt s_err s_cnt s_pos s_kind q_name rr_owner rr_data rr_rdlen rr_end]. exact I.
 Qed.
 
 (* -------------------------------------------------- first / sole question *)
@@ -304,9 +304,9 @@ Lemma first_question_sat m : has_header m ->
   sat (first_question m) (fun o => match o with Some q => good_name m (q_name q) | None => True end).
 Proof.
   intros Hh. unfold first_question.
-  eapply sat_bind; [apply question_section_sat; exact Hh|]. intros s _.
-  eapply sat_bind; [apply q_next_sat|]. intros [o s'] [_ Ho]. cbn in Ho.
-  destruct o as [[q|e]|]; cbn; auto.
+  eapply sat_bind; [apply question_section_sat; exact Hh|]. intros s _. cbv beta in *.
+  eapply sat_bind; [apply q_next_sat|]. intros [o s'] [_ Ho]. cbv beta in *. cbn [sat bind fst snd no_panic item_ok unwrap_opt s_err s_cnt s_pos s_kind q_name rr_owner rr_data rr_rdlen rr_end] in Ho.
+  destruct o as [[q|e]|]; cbn [sat bind fst snd no_panic item_ok unwrap_opt s_err s_cnt s_pos s_kind q_name rr_owner rr_data rr_rdlen rr_end]; auto.
 Qed.
 
 Lemma sole_question_sat m : has_header m ->
@@ -314,14 +314,14 @@ Lemma sole_question_sat m : has_header m ->
 Proof.
   intros Hh. unfold sole_question. destruct (count_offsets m Hh) as [Hq _].
   pose proof (count_at_sat m qd_off Hq) as Hc.
-  destruct (count_at m qd_off) as [c| | |] eqn:Ec; cbn in Hc; try contradiction; cbn [bind]; [|exact I].
-  destruct (N.eqb_spec c sole_none) as [H0|H0]; cbn; [exact I|].
-  destruct (N.eqb_spec c sole_one) as [H1|H1]; cbn; [|exact I].
+  destruct (count_at m qd_off) as [c| | |] eqn:Ec; cbn [sat bind fst snd no_panic item_ok unwrap_opt s_err s_cnt s_pos s_kind q_name rr_owner rr_data rr_rdlen rr_end] in Hc; try contradiction; cbn [bind]; [|exact I].
+  destruct (N.eqb_spec c sole_none) as [H0|H0]; cbn [sat bind fst snd no_panic item_ok unwrap_opt s_err s_cnt s_pos s_kind q_name rr_owner rr_data rr_rdlen rr_end]; [exact I|].
+  destruct (N.eqb_spec c sole_one) as [H1|H1]; cbn [sat bind fst snd no_panic item_ok unwrap_opt s_err s_cnt s_pos s_kind q_name rr_owner rr_data rr_rdlen rr_end]; [|exact I].
   unfold question_section. rewrite Ec. cbn [bind].
   pose proof (q_next_sat m (mkSect header_len c None 0)) as Hn.
   unfold q_next, sec_next in *. cbn [s_err s_cnt s_pos s_kind] in *.
   assert (Hpos : (0 <? c) = true) by (subst c; reflexivity). rewrite Hpos in *.
-  destruct (question_parse m header_len (mlen m)) as [q|e| |]; cbn in *; try contradiction; try exact I.
+  destruct (question_parse m header_len (mlen m)) as [q|e| |]; cbn [sat bind fst snd no_panic item_ok unwrap_opt s_err s_cnt s_pos s_kind q_name rr_owner rr_data rr_rdlen rr_end] in *; try contradiction; try exact I.
   destruct Hn as [_ Hn]. exact Hn.
 Qed.
 
@@ -354,57 +354,53 @@ Lemma msg_iter_sat : forall secs m s acc, has_header m ->
   sat (msg_iter secs m s acc) (fun _ => True).
 Proof.
   induction secs as [|secs IH]; intros m s acc Hh; cbn [msg_iter].
-  - eapply sat_bind; [apply drain_r_next_sat|]. intros r _. cbn. exact I.
-  - eapply sat_bind; [apply drain_r_next_sat|]. intros r _. cbv zeta.
+  - eapply sat_bind; [apply drain_r_next_sat|]. intros r _. cbv beta in *. cbn [sat bind fst snd no_panic item_ok unwrap_opt s_err s_cnt s_pos s_kind q_name rr_owner rr_data rr_rdlen rr_end]. exact I.
+  - eapply sat_bind; [apply drain_r_next_sat|]. intros r _. cbv beta in *. cbv zeta.
     pose proof (r_next_section_sat m (snd r) Hh) as Hn.
-    destruct (r_next_section m (snd r)) as [[s'|]|e| |]; cbn in *; try contradiction; auto.
-    apply IH. exact Hh.
+    destruct (r_next_section m (snd r)) as [[s'|]|e| |]; cbn [sat bind fst snd no_panic item_ok unwrap_opt s_err s_cnt s_pos s_kind q_name rr_owner rr_data rr_rdlen rr_end] in *; try contradiction; auto.
 Qed.
 
 Lemma message_iter_sat m : has_header m -> sat (message_iter m) (fun _ => True).
 Proof.
   intros Hh. unfold message_iter. pose proof (msg_answer_sat m Hh) as Ha.
-  destruct (msg_answer m) as [a|e| |]; cbn in *; try contradiction; auto.
+  destruct (msg_answer m) as [a|e| |]; cbn [sat bind fst snd no_panic item_ok unwrap_opt s_err s_cnt s_pos s_kind q_name rr_owner rr_data rr_rdlen rr_end] in *; try contradiction; auto.
   apply msg_iter_sat. exact Hh.
 Qed.
 
 (* --------------------------------------------------- names, is_answer *)
 Lemma observe_name_sat m p : good_name m p -> sat (observe_name m p) (fun _ => True).
-Proof. intros [ls H]. unfold observe_name. rewrite H. cbn. exact I. Qed.
+Proof. intros [ls H]. unfold observe_name. rewrite H. cbn [sat bind fst snd no_panic item_ok unwrap_opt s_err s_cnt s_pos s_kind q_name rr_owner rr_data rr_rdlen rr_end]. exact I. Qed.
 
 Lemma pname_eq_sat m1 p1 m2 p2 : good_name m1 p1 -> good_name m2 p2 ->
   sat (pname_eq m1 p1 m2 p2) (fun _ => True).
-Proof. intros [l1 H1] [l2 H2]. unfold pname_eq. rewrite H1, H2. cbn. exact I. Qed.
+Proof. intros [l1 H1] [l2 H2]. unfold pname_eq. rewrite H1, H2. cbn [sat bind fst snd no_panic item_ok unwrap_opt s_err s_cnt s_pos s_kind q_name rr_owner rr_data rr_rdlen rr_end]. exact I. Qed.
 
 Lemma question_eq_sat m1 q1 m2 q2 : good_name m1 (q_name q1) -> good_name m2 (q_name q2) ->
   sat (question_eq m1 q1 m2 q2) (fun _ => True).
 Proof.
   intros H1 H2. unfold question_eq. eapply sat_bind; [apply pname_eq_sat; assumption|].
-  intros e _. cbn. exact I.
+  intros e _. cbn [sat bind fst snd no_panic item_ok unwrap_opt s_err s_cnt s_pos s_kind q_name rr_owner rr_data rr_rdlen rr_end]. exact I.
 Qed.
 
 Lemma qsec_eq_sat : forall fuel m1 s1 m2 s2,
-  fuel_ok (S fuel) s1 -> sat (qsec_eq fuel m1 s1 m2 s2) (fun _ => True).
+  fuel_ok fuel s1 -> sat (qsec_eq fuel m1 s1 m2 s2) (fun _ => True).
 Proof.
   induction fuel as [|fuel IH]; intros m1 s1 m2 s2 Hf.
-  - (* fuel 0 is only possible for a fused or empty section, handled below *)
-    exfalso. unfold fuel_ok in Hf. destruct (s_err s1); lia.
+  - exfalso. unfold fuel_ok in Hf. destruct (s_err s1); lia.
   - cbn [qsec_eq].
     pose proof (sec_next_sat (fun pos => question_parse m1 pos (mlen m1)) q_end
                   (fun q => good_name m1 (q_name q))
                   (fun pos => question_parse_sat m1 pos (mlen m1) (N.le_refl _)) s1) as Hn1.
     fold (q_next m1) in Hn1.
-    destruct (q_next m1 s1) as [[o1 s1']|e1| |] eqn:E1; cbn in Hn1; try contradiction; cbn [bind]; [|exact I].
+    destruct (q_next m1 s1) as [[o1 s1']|e1| |] eqn:E1; cbn [sat bind fst snd no_panic item_ok unwrap_opt s_err s_cnt s_pos s_kind q_name rr_owner rr_data rr_rdlen rr_end] in Hn1; try contradiction; cbn [bind]; [|exact I].
     pose proof (q_next_sat m2 s2) as Hn2.
-    destruct (q_next m2 s2) as [[o2 s2']|e2| |] eqn:E2; cbn in Hn2; try contradiction; cbn [bind]; [|exact I].
+    destruct (q_next m2 s2) as [[o2 s2']|e2| |] eqn:E2; cbn [sat bind fst snd no_panic item_ok unwrap_opt s_err s_cnt s_pos s_kind q_name rr_owner rr_data rr_rdlen rr_end] in Hn2; try contradiction; cbn [bind]; [|exact I].
     destruct Hn1 as [_ Hn1]. destruct Hn2 as [_ Hn2].
-    destruct o1 as [[a|ea]|]; destruct o2 as [[b|eb]|]; cbn; try exact I.
+    destruct o1 as [[a|ea]|]; destruct o2 as [[b|eb]|]; cbn [sat bind fst snd no_panic item_ok unwrap_opt s_err s_cnt s_pos s_kind q_name rr_owner rr_data rr_rdlen rr_end]; try exact I.
     destruct Hn1 as [Ga [He [He' [Hc Hc']]]].
     eapply sat_bind; [apply question_eq_sat; assumption|]. intros e _.
-    destruct e; [|cbn; exact I].
-    destruct fuel as [|fuel'].
-    + exfalso. unfold fuel_ok in Hf. rewrite He in Hf. lia.
-    + apply IH. unfold fuel_ok in *. rewrite He in Hf. rewrite He'. lia.
+    destruct e; [|cbn [sat bind fst snd no_panic item_ok unwrap_opt s_err s_cnt s_pos s_kind q_name rr_owner rr_data rr_rdlen rr_end]; exact I].
+    apply IH. unfold fuel_ok in *. rewrite He in Hf. rewrite He'. lia.
 Qed.
 
 Lemma is_answer_sat m q : has_header m -> has_header q -> sat (is_answer m q) (fun _ => True).
@@ -415,12 +411,12 @@ Proof.
   destruct (get_some m 1) as [i1 Hi1]; [lia|]. destruct (get_some q 0) as [j0 Hj0]; [lia|].
   destruct (get_some q 1) as [j1 Hj1]; [lia|]. rewrite Hf, Hi0, Hi1, Hj0, Hj1.
   destruct (count_offsets m Hm) as [Hcm _]. destruct (count_offsets q Hq) as [Hcq _].
-  eapply sat_bind; [apply count_at_sat; exact Hcm|]. intros c1 _.
-  eapply sat_bind; [apply count_at_sat; exact Hcq|]. intros c2 _.
-  destruct (negb (128 <=? f) || negb ((i0 =? j0) && (i1 =? j1)) || negb (c1 =? c2)); cbn; [exact I|].
-  eapply sat_bind; [apply question_section_sat; exact Hm|]. intros s1 _.
-  eapply sat_bind; [apply question_section_sat; exact Hq|]. intros s2 _.
-  unfold sec_fuel. apply qsec_eq_sat. unfold fuel_ok. destruct (s_err s1); lia.
+  eapply sat_bind; [apply count_at_sat; exact Hcm|]. intros c1 _. cbv beta in *.
+  eapply sat_bind; [apply count_at_sat; exact Hcq|]. intros c2 _. cbv beta in *.
+  destruct (negb (128 <=? f) || negb ((i0 =? j0) && (i1 =? j1)) || negb (c1 =? c2)); cbn [sat bind fst snd no_panic item_ok unwrap_opt s_err s_cnt s_pos s_kind q_name rr_owner rr_data rr_rdlen rr_end]; [exact I|].
+  eapply sat_bind; [apply question_section_sat; exact Hm|]. intros s1 _. cbv beta in *.
+  eapply sat_bind; [apply question_section_sat; exact Hq|]. intros s2 _. cbv beta in *.
+  apply qsec_eq_sat. apply sec_fuel_ok.
 Qed.
 
 (* ------------------------------------------------------- canonical_name *)
@@ -428,10 +424,10 @@ Lemma into_cname_sat m r : good_rr m (mlen m) r ->
   sat (into_cname m r) (fun o => match o with Some p => good_name m p | None => True end).
 Proof.
   intros [_ [Hd _]]. unfold into_cname.
-  destruct (mlen m - rr_data r <? rr_rdlen r); cbn; [exact I|]. cbv zeta.
-  destruct (rr_type r =? RT_CNAME); cbn; [|exact I].
-  eapply sat_bind; [apply parse_ref_sat; exact Hd|]. intros p Hp.
-  destruct (0 <? rr_data r + rr_rdlen r - pn_end p); cbn; [exact I|exact Hp].
+  destruct (mlen m - rr_data r <? rr_rdlen r); cbn [sat bind fst snd no_panic item_ok unwrap_opt s_err s_cnt s_pos s_kind q_name rr_owner rr_data rr_rdlen rr_end]; [exact I|]. cbv zeta.
+  destruct (rr_type r =? RT_CNAME); cbn [sat bind fst snd no_panic item_ok unwrap_opt s_err s_cnt s_pos s_kind q_name rr_owner rr_data rr_rdlen rr_end]; [|exact I].
+  eapply sat_bind; [apply parse_ref_sat; exact Hd|]. intros p Hp. cbv beta in *.
+  destruct (0 <? rr_data r + rr_rdlen r - pn_end p); cbn [sat bind fst snd no_panic item_ok unwrap_opt s_err s_cnt s_pos s_kind q_name rr_owner rr_data rr_rdlen rr_end]; [exact I|exact Hp].
 Qed.
 
 Lemma cname_scan_sat : forall fuel m s name, good_name m name -> fuel_ok fuel s ->
@@ -443,18 +439,18 @@ Proof.
     pose proof (sec_next_sat (fun pos => record_parse m pos (mlen m)) rr_end (good_rr m (mlen m))
                   (fun pos => record_parse_sat m pos (mlen m) (N.le_refl _)) s) as Hx.
     fold (r_next m) in Hx.
-    destruct (r_next m s) as [[o s']|e| |]; cbn in Hx; try contradiction; cbn [bind]; [|exact I].
+    destruct (r_next m s) as [[o s']|e| |]; cbn [sat bind fst snd no_panic item_ok unwrap_opt s_err s_cnt s_pos s_kind q_name rr_owner rr_data rr_rdlen rr_end] in Hx; try contradiction; cbn [bind]; [|exact I].
     destruct Hx as [_ Hx]. cbn [fst snd] in Hx.
     assert (Hrec : forall s', s_err s = None -> (s_err s' = None -> s_cnt s' = s_cnt s - 1) -> 0 < s_cnt s ->
                     sat (cname_scan fuel m s' name) (fun o => match o with Some p => good_name m p | None => True end)).
     { intros s2 He Hc Hpos. apply IH; [exact Hn|]. unfold fuel_ok in *. rewrite He in Hf.
       destruct (s_err s2); [lia|]. specialize (Hc eq_refl). lia. }
-    destruct o as [[rec|e]|]; cbn; [| |exact I].
+    destruct o as [[rec|e]|]; cbn [sat bind fst snd no_panic item_ok unwrap_opt s_err s_cnt s_pos s_kind q_name rr_owner rr_data rr_rdlen rr_end]; [| |exact I].
     + destruct Hx as [Hg [He [He' [Hc Hc']]]].
       pose proof (into_cname_sat m rec Hg) as Hi.
-      destruct (into_cname m rec) as [[t|]|e| |]; cbn in Hi; try contradiction.
+      destruct (into_cname m rec) as [[t|]|e| |]; cbn [sat bind fst snd no_panic item_ok unwrap_opt s_err s_cnt s_pos s_kind q_name rr_owner rr_data rr_rdlen rr_end] in Hi; try contradiction.
       * eapply sat_bind; [apply pname_eq_sat; [destruct Hg as [Hg _]; exact Hg|exact Hn]|].
-        intros b _. destruct b; [cbn; exact Hi|]. apply Hrec; auto.
+        intros b _. destruct b; [cbn [sat bind fst snd no_panic item_ok unwrap_opt s_err s_cnt s_pos s_kind q_name rr_owner rr_data rr_rdlen rr_end]; exact Hi|]. apply Hrec; auto.
       * apply Hrec; auto.
       * apply Hrec; auto.
     + destruct Hx as [He [He' Hc]]. apply IH; [exact Hn|].
@@ -466,24 +462,30 @@ Lemma cname_chase_sat : forall rounds m ans name, good_name m name ->
 Proof.
   induction rounds as [|rounds IH]; intros m ans name Hn; cbn [cname_chase]; [exact I|].
   eapply sat_bind; [apply cname_scan_sat; [exact Hn|apply sec_fuel_ok]|].
-  intros o Ho. destruct o as [t|]; [apply IH; exact Ho|cbn; exact Hn].
+  intros o Ho. destruct o as [t|]; [apply IH; exact Ho|cbn [sat bind fst snd no_panic item_ok unwrap_opt s_err s_cnt s_pos s_kind q_name rr_owner rr_data rr_rdlen rr_end]; exact Hn].
 Qed.
 
 (* the loop bound is computed without overflow (the u32 widening) *)
 Lemma canonical_rounds_sat an : sat (canonical_rounds an) (fun r => r = an + 1).
-Proof. unfold canonical_rounds, canon_wide, canon_extra. cbn. reflexivity. Qed.
+Proof. unfold canonical_rounds, canon_wide, canon_extra. cbn [sat bind fst snd no_panic item_ok unwrap_opt s_err s_cnt s_pos s_kind q_name rr_owner rr_data rr_rdlen rr_end]. reflexivity. Qed.
+
+Lemma canonical_rounds_eq an : canonical_rounds an = Ok (an + 1).
+Proof. reflexivity. Qed.
+
+Example canonical_rounds_65535 : canonical_rounds 65535 = Ok 65536.
+Proof. reflexivity. Qed.
 
 Lemma canonical_name_sat m : has_header m ->
   sat (canonical_name m) (fun o => match o with Some p => good_name m p | None => True end).
 Proof.
   intros Hh. unfold canonical_name.
-  eapply sat_bind; [apply first_question_sat; exact Hh|]. intros fq Hfq.
-  destruct fq as [q|]; [|cbn; exact I].
+  eapply sat_bind; [apply first_question_sat; exact Hh|]. intros fq Hfq. cbv beta in *.
+  destruct fq as [q|]; [|cbn [sat bind fst snd no_panic item_ok unwrap_opt s_err s_cnt s_pos s_kind q_name rr_owner rr_data rr_rdlen rr_end]; exact I].
   pose proof (msg_answer_sat m Hh) as Ha.
-  destruct (msg_answer m) as [ans|e| |]; cbn in Ha; try contradiction; [|cbn; exact I].
+  destruct (msg_answer m) as [ans|e| |]; cbn [sat bind fst snd no_panic item_ok unwrap_opt s_err s_cnt s_pos s_kind q_name rr_owner rr_data rr_rdlen rr_end] in Ha; try contradiction; [|cbn [sat bind fst snd no_panic item_ok unwrap_opt s_err s_cnt s_pos s_kind q_name rr_owner rr_data rr_rdlen rr_end]; exact I].
   destruct (count_offsets m Hh) as [_ [Han _]].
-  eapply sat_bind; [apply count_at_sat; exact Han|]. intros an _.
-  eapply sat_bind; [apply canonical_rounds_sat|]. intros rounds _.
+  eapply sat_bind; [apply count_at_sat; exact Han|]. intros an _. cbv beta in *.
+  eapply sat_bind; [apply canonical_rounds_sat|]. intros rounds _. cbv beta in *.
   apply cname_chase_sat. exact Hfq.
 Qed.
 
@@ -493,20 +495,20 @@ Lemma opt_check_sat : forall fuel m pos lim acc, lim <= mlen m ->
 Proof.
   induction fuel as [|fuel IH]; intros m pos lim acc Hl Hf; [lia|].
   cbn [opt_check].
-  destruct (N.ltb_spec 0 (lim - pos)) as [H0|H0]; [|cbn; exact I].
-  destruct (N.ltb_spec (lim - pos) 2) as [H2|H2]; [cbn; exact I|].
-  eapply sat_bind; [apply u16_at_sat; exact Hl|]. intros code _.
-  eapply sat_bind; [apply u16_at_sat; exact Hl|]. intros len H4.
-  destruct (N.ltb_spec (lim - (pos + 4)) len) as [H5|H5]; [cbn; exact I|].
-  apply IH; [exact Hl|lia].
+  destruct (N.ltb_spec 0 (lim - pos)) as [H0|H0]; [|cbn [sat bind fst snd no_panic item_ok unwrap_opt s_err s_cnt s_pos s_kind q_name rr_owner rr_data rr_rdlen rr_end]; exact I].
+  destruct (N.ltb_spec (lim - pos) 2) as [H2|H2]; [cbn [sat bind fst snd no_panic item_ok unwrap_opt s_err s_cnt s_pos s_kind q_name rr_owner rr_data rr_rdlen rr_end]; exact I|].
+  eapply sat_bind; [apply u16_at_sat; exact Hl|]. intros code _. cbv beta in *.
+  eapply sat_bind; [apply u16_at_sat; exact Hl|]. intros len H4. cbv beta in *.
+  destruct (N.ltb_spec (lim - (pos + 4)) len) as [H5|H5]; [cbn [sat bind fst snd no_panic item_ok unwrap_opt s_err s_cnt s_pos s_kind q_name rr_owner rr_data rr_rdlen rr_end]; exact I|].
+  cbv beta in H4. apply IH; [exact Hl|lia].
 Qed.
 
 Lemma into_opt_sat m r : good_rr m (mlen m) r -> sat (into_opt m r) (fun _ => True).
 Proof.
   intros [_ [Hd _]]. unfold into_opt.
-  destruct (mlen m - rr_data r <? rr_rdlen r); cbn; [exact I|]. cbv zeta.
-  destruct (rr_type r =? RT_OPT); cbn; [|exact I].
-  eapply sat_bind; [apply opt_check_sat; [exact Hd|lia]|]. intros os _. cbn. exact I.
+  destruct (mlen m - rr_data r <? rr_rdlen r); cbn [sat bind fst snd no_panic item_ok unwrap_opt s_err s_cnt s_pos s_kind q_name rr_owner rr_data rr_rdlen rr_end]; [exact I|]. cbv zeta.
+  destruct (rr_type r =? RT_OPT); cbn [sat bind fst snd no_panic item_ok unwrap_opt s_err s_cnt s_pos s_kind q_name rr_owner rr_data rr_rdlen rr_end]; [|exact I].
+  eapply sat_bind; [apply opt_check_sat; [exact Hd|lia]|]. intros os _. cbv beta in *. cbn [sat bind fst snd no_panic item_ok unwrap_opt s_err s_cnt s_pos s_kind q_name rr_owner rr_data rr_rdlen rr_end]. exact I.
 Qed.
 
 Lemma opt_scan_sat : forall fuel m s, fuel_ok fuel s -> sat (opt_scan fuel m s) (fun _ => True).
@@ -517,18 +519,18 @@ Proof.
     pose proof (sec_next_sat (fun pos => record_parse m pos (mlen m)) rr_end (good_rr m (mlen m))
                   (fun pos => record_parse_sat m pos (mlen m) (N.le_refl _)) s) as Hx.
     fold (r_next m) in Hx.
-    destruct (r_next m s) as [[o s']|e| |]; cbn in Hx; try contradiction; cbn [bind]; [|exact I].
+    destruct (r_next m s) as [[o s']|e| |]; cbn [sat bind fst snd no_panic item_ok unwrap_opt s_err s_cnt s_pos s_kind q_name rr_owner rr_data rr_rdlen rr_end] in Hx; try contradiction; cbn [bind]; [|exact I].
     destruct Hx as [_ Hx]. cbn [fst snd] in Hx.
-    destruct o as [[rec|e]|]; cbn; try exact I.
+    destruct o as [[rec|e]|]; cbn [sat bind fst snd no_panic item_ok unwrap_opt s_err s_cnt s_pos s_kind q_name rr_owner rr_data rr_rdlen rr_end]; try exact I.
     destruct Hx as [Hg [He [He' [Hc Hc']]]].
     pose proof (into_opt_sat m rec Hg) as Hi.
-    destruct (into_opt m rec) as [[os|]|e| |]; cbn in Hi; try contradiction; cbn; try exact I.
+    destruct (into_opt m rec) as [[os|]|e| |]; cbn [sat bind fst snd no_panic item_ok unwrap_opt s_err s_cnt s_pos s_kind q_name rr_owner rr_data rr_rdlen rr_end] in Hi; try contradiction; cbn [sat bind fst snd no_panic item_ok unwrap_opt s_err s_cnt s_pos s_kind q_name rr_owner rr_data rr_rdlen rr_end]; try exact I.
     apply IH. unfold fuel_ok in *. rewrite He in Hf. rewrite He'. lia.
 Qed.
 
 Lemma msg_opt_sat m : has_header m -> sat (msg_opt m) (fun _ => True).
 Proof.
   intros Hh. unfold msg_opt. pose proof (msg_additional_sat m Hh) as Ha.
-  destruct (msg_additional m) as [s|e| |]; cbn in Ha; try contradiction; [|cbn; exact I].
+  destruct (msg_additional m) as [s|e| |]; cbn [sat bind fst snd no_panic item_ok unwrap_opt s_err s_cnt s_pos s_kind q_name rr_owner rr_data rr_rdlen rr_end] in Ha; try contradiction; [|cbn [sat bind fst snd no_panic item_ok unwrap_opt s_err s_cnt s_pos s_kind q_name rr_owner rr_data rr_rdlen rr_end]; exact I].
   apply opt_scan_sat. apply sec_fuel_ok.
 Qed.
